@@ -392,11 +392,15 @@ impl PacketReceiver {
                     let window_delta = packet_id::sub(sequence_id, new_base_id);
 
                     if window_parent_lead == 0 || window_parent_lead > window_delta {
+                        if self.data_flags[flags_index] & flag_bit != 0 {
+                            // Window advancement implies that this packet has been delivered. A
+                            // sender whose window and channel parent leads disagree can get here
+                            // with the packet still waiting on its channel: do not pass it, or its
+                            // data would be held outside of the receive allocation.
+                            break;
+                        }
                         // println!("Forget sequence ID {}", sequence_id);
                         new_base_id = next_id;
-                        // Window advancement implies that this packet has been delivered
-                        debug_assert!(self.data_flags[flags_index] & flag_bit == 0);
-                        debug_assert!(self.data_entries[window_idx].data.is_none());
                     } else {
                         // Cease to consider advancing the window
                         break;
